@@ -185,6 +185,7 @@ def run_case(case):
             xm[:, :, 2] *= -1
             tm = gen.make_traj(xm, cells, top=traj.topology)
             mirD = md.compute_dihedrals(tm, Q, periodic=periodic)
+    ortho_cell = [True] * nf if cells is None else [bool(np.allclose(np.asarray(H_) - np.diag(np.diag(H_)), 0.0, atol=1e-9)) for H_ in Hs]
     for opt in (True, False):
         A, D = res[opt]
         tag = "opt" if opt else "ref"
@@ -197,8 +198,11 @@ def run_case(case):
             u, lu, w = _vec(x[f, T[:, 0]] - x[f, T[:, 1]], H)
             v, lv, _w = _vec(x[f, T[:, 2]] - x[f, T[:, 1]], H)
             # (every leg length counts: the minimum image is unique unless two images are equally short; those legs are left out)
+            # (as in C05: in a rectangular cell the kernels give the nearest image for every separation; in a skewed one only
+            # below half the smallest cell width - beyond it the two code paths must still agree, see below)
             tmar = 64 * oracle.EPS32 * (xmax + cmax + 1) + 1e-5
-            ok = (lu > 0) & (lv > 0) & ~_tie(u, H, tmar) & ~_tie(v, H, tmar)
+            lim = np.inf if (H is None or ortho_cell[f]) else 0.499 * w
+            ok = (lu > 0) & (lv > 0) & (lu < lim) & (lv < lim) & ~_tie(u, H, tmar) & ~_tie(v, H, tmar)
             if use_cell and ok.any():
                 plain = np.linalg.norm(x[f, T[:, 0]] - x[f, T[:, 1]], axis=1)
                 if (np.abs(plain - lu)[ok] > 1e-3).any():
@@ -222,7 +226,7 @@ def run_case(case):
             b1, l1, w = _vec(x[f, Q[:, 1]] - x[f, Q[:, 0]], H)
             b2, l2, _w = _vec(x[f, Q[:, 2]] - x[f, Q[:, 1]], H)
             b3, l3, _w = _vec(x[f, Q[:, 3]] - x[f, Q[:, 2]], H)
-            okq = (l1 > 0) & (l2 > 0) & (l3 > 0) & ~_tie(b1, H, tmar) & ~_tie(b2, H, tmar) & ~_tie(b3, H, tmar)
+            okq = (l1 > 0) & (l2 > 0) & (l3 > 0) & (l1 < lim) & (l2 < lim) & (l3 < lim) & ~_tie(b1, H, tmar) & ~_tie(b2, H, tmar) & ~_tie(b3, H, tmar)
             phi = oracle.dihedral(b1, b2, b3)
             s1 = np.sin(oracle.angle(-b1, b2))
             s2 = np.sin(oracle.angle(-b2, b3))
@@ -253,9 +257,54 @@ def run_case(case):
                     dm = np.abs((mirD[f] + D[f] + math.pi) % (2 * math.pi) - math.pi)
                     if (dm[well] > 2 * tolq[well]).any():
                         viol.append(("dihedral/mirror", "mirroring did not negate the dihedral, max |d'+d| %.3g" % float(dm[well].max())))
-    if True in res and False in res and res[True][0].shape == res[False][0].shape:
-        # opt vs reference on the well-defined entries is implied by both matching the oracle; assert shapes / dtype sanity
-        pass
+    if True in res and False in res and res[True][0].shape == res[False][0].shape and res[True][1].shape == res[False][1].shape:
+        # the optimised and the reference path agree - also for legs beyond half the smallest width of a skewed cell, where both
+        # run the same fold + neighbouring-image search; legs sitting on a wrap tie (a fractional coordinate of one half, decided
+        # by rounding) or with two equally short images, and ill-conditioned angles, are left out
+        from props.c05 import _wrap_tie
+        for f in range(nf):
+            H = Hs[f] if use_cell else None
+
+            def shaky(d):
+                if H is None:
+                    return np.zeros(len(d), dtype=bool)
+                vv = oracle.mic(d, H)[0]
+                return _wrap_tie(d, H) | _tie(vv, H, 1e-3)
+            if H is not None and periodic:
+                # ... and moving atoms by whole cell vectors changes nothing (whatever image the kernels pick for a long leg, they
+                # pick it from the displacement folded into the cell, which a lattice translation does not alter)
+                if f == 0:
+                    srng = np.random.Generator(np.random.PCG64(case["seed"] + 5))
+                    shifted = traj.xyz.astype(np.float64).copy()
+                    for f_ in range(nf):
+                        shifted[f_] += srng.integers(-2, 3, (n, 3)) @ Hs[f_]
+                    t_sh = gen.make_traj(shifted.astype(np.float32), cells, top=traj.topology)
+                    with warnings.catch_warnings():
+                        warnings.simplefilter("ignore")
+                        sh_res = (md.compute_angles(t_sh, T, periodic=True), md.compute_dihedrals(t_sh, Q, periodic=True))
+                    labels.append("lattice-shifted-copy")
+            dA = [x[f, T[:, 0]] - x[f, T[:, 1]], x[f, T[:, 2]] - x[f, T[:, 1]]]
+            a_o, a_r = res[True][0][f].astype(np.float64), res[False][0][f].astype(np.float64)
+            cmp_a = ~shaky(dA[0]) & ~shaky(dA[1]) & (np.sin(a_r) > 0.05) & (np.linalg.norm(dA[0], axis=1) > 1e-3) & (np.linalg.norm(dA[1], axis=1) > 1e-3)
+            if (cmp_a & ~(np.abs(a_o - a_r) <= 2e-3)).any():
+                i = int(np.argmax(cmp_a & ~(np.abs(a_o - a_r) <= 2e-3)))
+                viol.append(("opt-vs-ref/angle", "frame %d triplet %s: optimised path %.6f, reference path %.6f" % (f, T[i].tolist(), a_o[i], a_r[i])))
+            if H is not None and periodic:
+                a_s = sh_res[0][f].astype(np.float64)
+                stol = 2e-3 + 64 * oracle.EPS32 * (xmax + 3 * cmax + 1) / np.maximum(np.minimum(np.linalg.norm(dA[0], axis=1), np.linalg.norm(dA[1], axis=1)), 1e-3) / 0.05
+                if (cmp_a & ~(np.abs(a_s - a_o) <= stol)).any():
+                    i = int(np.argmax(cmp_a & ~(np.abs(a_s - a_o) <= stol)))
+                    viol.append(("lattice-shift/angle", "frame %d triplet %s: %.6f, after moving the atoms by cell vectors %.6f" % (f, T[i].tolist(), a_o[i], a_s[i])))
+            dQ = [x[f, Q[:, 1]] - x[f, Q[:, 0]], x[f, Q[:, 2]] - x[f, Q[:, 1]], x[f, Q[:, 3]] - x[f, Q[:, 2]]]
+            d_o, d_r = res[True][1][f].astype(np.float64), res[False][1][f].astype(np.float64)
+            if len(Q):
+                vq = [oracle.mic(d, H)[0] if H is not None else d for d in dQ]
+                sm = np.minimum(np.sin(oracle.angle(-vq[0], vq[1])), np.sin(oracle.angle(-vq[1], vq[2])))
+                cmp_q = ~shaky(dQ[0]) & ~shaky(dQ[1]) & ~shaky(dQ[2]) & (sm > 0.05) & np.all([np.linalg.norm(d, axis=1) > 1e-3 for d in dQ], axis=0)
+                dd_ = np.abs((d_o - d_r + math.pi) % (2 * math.pi) - math.pi)
+                if (cmp_q & ~(dd_ <= 5e-3)).any():
+                    i = int(np.argmax(cmp_q & ~(dd_ <= 5e-3)))
+                    viol.append(("opt-vs-ref/dihedral", "frame %d quartet %s: optimised path %.6f, reference path %.6f" % (f, Q[i].tolist(), d_o[i], d_r[i])))
     if use_cell:
         labels.append("periodic")
     if crossing:
